@@ -124,6 +124,20 @@ class Gen:
     def query(self, depth=None):
         r = self.r
         if depth is None:
+            # ask a query of this history AGAIN (built afresh, so an equal but different object): whatever the library remembers about a
+            # query must not outlive the writes in between
+            past = self.__dict__.setdefault("past_queries", [])
+            if past and r.random() < 0.25:
+                return r.choice(past)
+            q = self._fresh_query()
+            if len(past) < 12:
+                past.append(q)
+            return q
+        return self._fresh_query(depth)
+
+    def _fresh_query(self, depth=None):
+        r = self.r
+        if depth is None:
             if self.ids > 2 and r.random() < 0.2:
                 # a sparse, explicitly chosen subset of the stored points
                 js = r.sample(range(1, self.ids + 1), r.choice([2, 2, 3]))
@@ -136,8 +150,8 @@ class Gen:
             return self.simple()
         c = r.random()
         if c < 0.3:
-            return ("not", self.query(depth - 1))
-        return (r.choice(["and", "or"]), self.query(depth - 1), self.query(r.randrange(depth)))
+            return ("not", self._fresh_query(depth - 1))
+        return (r.choice(["and", "or"]), self._fresh_query(depth - 1), self._fresh_query(r.randrange(depth)))
 
     def mfilter(self):
         return self.r.choice(MEAS_FILTERS)
@@ -376,7 +390,9 @@ class Gen:
             gets = lambda name: [("get_tag_keys", name), ("get_tag_values", [], name), ("get_field_keys", name), ("get_field_values", "pos", name),
                                  ("get_timestamps", name), ("handle", name, ("get_field_values", "pos")), ("handle", name, ("len",))]
             ops += [("insert", pts, None, "multiple")] + obs + gets("m1") + gets("m2")
-            ops += [("remove", ("S", "fields", [("k", "pos")], ("cmp", r.choice(["<", "=="]), ("n", r.choice([1, 2, 3])))), None)] + obs
+            rq = ("S", "fields", [("k", "pos")], ("cmp", r.choice(["<", "=="]), ("n", r.choice([1, 2, 3]))))
+            ops += [r.choice([("remove", rq, None), ("remove", ("not", ("not", rq)), r.choice(["m1", "m2"])),
+                              ("handle", r.choice(["m1", "m2"]), ("remove", ("not", ("S", "fields", [("k", "pos")], ("cmp", ">=", ("n", r.choice([2, 3, 4])))))))])] + obs
             ops += gets("m1") + gets("m2")
         elif k == "handle_sorted":
             # storage order differs from time order, the index is rebuilt by a read, then sorted reads through a handle
@@ -427,8 +443,14 @@ class Gen:
             for p in pts:
                 p["fields"]["a"] = 1
             pts[r.randrange(1, len(pts))]["fields"]["a"] = 2          # fields callable 3 raises when a == 2
-            ops += [("insert", pts, None, "multiple")] + obs
-            ops += [("update_all", {"fields": ("call", 3), "tags": ("static", {"b": "y"})})] + obs
+            torn = r.choice([{"fields": ("call", 3), "tags": ("static", {"b": "y"})}, {"fields": ("call", 3), "unset_tags": ["a", "k"]},
+                             {"fields": ("call", 3), "unset_tags": ["b"], "time": ("static", self.time())},
+                             {"fields": ("call", 3), "unset_fields": ["b"], "meas": ("static", "m3")}])
+            for p in pts:
+                p["tags"].setdefault("k", "x")
+                p["fields"].setdefault("b", 1)
+            ops = [("insert", pts, None, "multiple")] + obs
+            ops += [("update_all", torn)] + obs
             ops += [r.choice([("update_all", {"tags": ("static", {"k": "after"})}),
                               ("remove", ("S", "fields", [("k", "a")], ("cmp", "==", ("n", 2))), None),
                               ("update", ("S", "fields", [("k", "a")], ("cmp", "==", ("n", 1))), {"fields": ("static", {"b": 5})}, None)])] + obs
